@@ -866,6 +866,15 @@ impl<T: Transport, Env: UtpEnvironment> VirtualSocket<T, Env> {
         while remaining > 0 && remote_window_remaining > 0 {
             let ss = self.segment_sizes.next_segment_size();
             let min_ss = self.segment_sizes.mss();
+            // An MTU probe larger than the whole congestion window can't be sent, and neither can anything
+            // behind it, so the window wouldn't grow either: it would sit there until the retransmit timer
+            // pushes it out. Probe with what fits, the search goes on from there.
+            let cwnd = self.congestion_controller.window();
+            let ss = if ss as usize > cwnd {
+                (cwnd as u16).max(min_ss)
+            } else {
+                ss
+            };
             let max_payload_size = (ss as usize).min(remote_window_remaining);
             let payload_size = max_payload_size.min(remaining);
 
